@@ -43,6 +43,11 @@ pub enum FFault {
     Readdress(usize, u16),
     /// flip one bit of frame i (bit offset within the frame)
     Flip(usize, usize),
+    /// rebuild frame i (valid CRCs) with only the first n data octets of its segment - a segment shape the library's own
+    /// writer never produces: a short middle segment, or a transport octet and nothing else
+    Shorten(usize, usize),
+    /// rebuild frame i with other FIR/FIN bits in its transport octet (bit 0 = FIR, bit 1 = FIN)
+    TransportFlags(usize, u8),
 }
 
 #[derive(Clone, Debug, Serialize, Deserialize)]
@@ -64,6 +69,9 @@ pub struct Case {
     /// change or a user message wakes them)
     #[serde(default)]
     pub cancel_after: Vec<usize>,
+    /// the driver calls `read` once more before it takes a completed fragment (as a session that retained it would)
+    #[serde(default)]
+    pub hold: bool,
 }
 
 pub struct TransScenario;
@@ -183,12 +191,14 @@ impl Scenario for TransScenario {
         };
         for _ in 0..nf {
             let i = rng.usize_below(total_frames.max(1));
-            faults.push(match rng.below(6) {
+            faults.push(match rng.below(8) {
                 0 => FFault::Drop(i),
                 1 => FFault::Dup(i),
                 2 => FFault::Swap(i),
                 3 => FFault::Readdress(i, if rng.bool() { b } else { addr(rng) }),
                 4 => FFault::Flip(i, rng.usize_below(292 * 8)),
+                5 => FFault::Shorten(i, if rng.chance(1, 3) { 0 } else { rng.usize_below(249) }),
+                6 => FFault::TransportFlags(i, rng.below(4) as u8),
                 _ => FFault::Drop(i),
             });
         }
@@ -228,6 +238,7 @@ impl Scenario for TransScenario {
             faults,
             cuts,
             cancel_after,
+            hold: rng.chance(1, 3),
         }
     }
 
@@ -526,6 +537,31 @@ async fn drive(sim: &kernel::Sim, case: &Case) -> RunResult {
                     fault_fired = true;
                 }
             }
+            FFault::Shorten(i, keep) => {
+                let i = i % frames.len();
+                if let reflink::Candidate::Frame(mut fr, _) = reflink::candidate(&frames[i]) {
+                    if !fr.payload.is_empty() {
+                        fr.payload.truncate(1 + keep % fr.payload.len());
+                        frames[i] = reflink::build_frame(&fr);
+                        counters.push(("fault.seg_shortened", 1));
+                        // (what the receiver is then entitled to deliver is no longer one of the written fragments)
+                        readdressed = true;
+                        fault_fired = true;
+                    }
+                }
+            }
+            FFault::TransportFlags(i, bits) => {
+                let i = i % frames.len();
+                if let reflink::Candidate::Frame(mut fr, _) = reflink::candidate(&frames[i]) {
+                    if !fr.payload.is_empty() {
+                        fr.payload[0] = (fr.payload[0] & 0x3F) | ((bits & 1) << 6) | ((bits & 2) << 6);
+                        frames[i] = reflink::build_frame(&fr);
+                        counters.push(("fault.seg_flags_rewritten", 1));
+                        readdressed = true;
+                        fault_fired = true;
+                    }
+                }
+            }
             FFault::Flip(i, bit) => {
                 let i = i % frames.len();
                 let nbits = frames[i].len() * 8;
@@ -576,6 +612,7 @@ async fn drive(sim: &kernel::Sim, case: &Case) -> RunResult {
     let rx_buffer = case.rx_buffer;
     let reader_addr = ep(case.reader_addr);
     let is_master = case.reader_is_master;
+    let hold = case.hold;
     let task = sim.spawn("transport-reader", async move {
         let mut phys = PhysLayer::Sim(Box::new(sock));
         let mut reader = if is_master {
@@ -604,6 +641,21 @@ async fn drive(sim: &kernel::Sim, case: &Case) -> RunResult {
             };
             match res {
                 Ok(()) => {
+                    // a session may keep a fragment for later (a request that arrives during a confirm wait is looked at again
+                    // from idle) and call `read` again first: the fragment must still be there, untouched by what follows it
+                    if hold && matches!(reader.peek(), Some(TransportData::Fragment(_))) {
+                        if let Some(core) = crate::verif::kernel::current() {
+                            core.count("fault.read_again_before_pop", 1);
+                        }
+                        let again = tokio::select! {
+                            biased;
+                            r = reader.read(&mut phys, DecodeLevel::nothing()) => Some(r),
+                            _ = std::future::ready(()) => None,
+                        };
+                        if let Some(Err(_)) = again {
+                            break;
+                        }
+                    }
                     while let Some(data) = reader.pop() {
                         if let TransportData::Fragment(f) = data {
                             d2.lock()
@@ -754,6 +806,8 @@ async fn drive(sim: &kernel::Sim, case: &Case) -> RunResult {
             FFault::Swap(i) => 300 + (i % total) as u64,
             FFault::Readdress(i, _) => 400 + (i % total) as u64,
             FFault::Flip(i, b) => 500 + (i % total) as u64 * 4 + (*b as u64 % 4),
+            FFault::Shorten(i, k) => 600 + (i % total) as u64 * 4 + (*k == 0) as u64,
+            FFault::TransportFlags(i, b) => 700 + (i % total) as u64 * 4 + *b as u64,
         };
         h = mix(&[h, v]);
     }
